@@ -41,6 +41,19 @@ def frac(x):
     return Fraction(x)
 
 
+def zero(mode):
+    """The exact zero of an exactness mode: int 0 | Fraction(0) (written "0/1") | 0.0."""
+    return 0 if mode == "int" else "0/1" if mode == "frac" else 0.0
+
+
+def _rate_constant(draw, mode, lo_exp, hi_exp):
+    """A rate constant (pre-exponential factor): positive, or - about one in nine - exactly zero (a reaction that is
+    switched off but still a member of the system)."""
+    if draw(st.integers(0, 8)) == 8:
+        return zero(mode)
+    return _number(draw, mode, lo_exp, hi_exp)
+
+
 def _number(draw, mode, lo_exp=-3, hi_exp=3, allow_zero=False):
     """Positive number in the given exactness mode; shrinks towards 1."""
     if allow_zero and draw(st.integers(0, 11)) == 11:
@@ -140,11 +153,11 @@ def programs(draw, max_sub=6, max_rxn=6):
             kind = draw(st.sampled_from(["ma", "arr", "arr", "eyr"]))
         rx["kind"] = kind
         if kind == "ma":
-            rx["par"] = [_number(draw, mode, -15, 15)]
+            rx["par"] = [_rate_constant(draw, mode, -15, 15)]
         elif kind == "arr":       # A, Ea/R [K]
-            rx["par"] = [_number(draw, mode, -3, 12), _tnum(draw, mode, 100, 9000)]
+            rx["par"] = [_rate_constant(draw, mode, -3, 12), _tnum(draw, mode, 100, 9000)]
         else:                      # c0 = kB/h exp(dS/R), dH/R [K], conc0
-            rx["par"] = [_number(draw, mode, -3, 12), _tnum(draw, mode, 100, 9000), _number(draw, mode, -1, 1)]
+            rx["par"] = [_rate_constant(draw, mode, -3, 12), _tnum(draw, mode, 100, 9000), _number(draw, mode, -1, 1)]
     conc = {k: _number(draw, mode, -3, 0, allow_zero=True) for k in keys}
     t = _number(draw, mode, -3, -1, allow_zero=True)
     case = {
@@ -160,8 +173,38 @@ def programs(draw, max_sub=6, max_rxn=6):
         "subst_idx": draw(st.integers(0, nr - 1)),
         "pexpr_idx": draw(st.integers(0, nr - 1)),
         "pexpr_coef": [_number(draw, "int" if mode == "float" else mode), _number(draw, "int" if mode == "float" else mode)],
+        # the optional symbol arguments of the explicit builder (_create_odesys)
+        "sym": _symbol_arguments(draw, keys),
     }
     return case
+
+
+SYMBOL_ASSUMPTIONS = [{}, {"real": True}, {"nonnegative": True}, {"positive": True}]
+
+
+def _symbol_arguments(draw, keys):
+    """How substance_symbols / parameter_symbols / time_symbol are handed to _create_odesys.
+
+    subst : "default" (None) | "dict_perm" (plain dict listing the keys in `order`) | "odict" (OrderedDict in substance
+            order) | "dict" (plain dict in substance order)
+    names : how the caller names its own symbols: "prefix" c_<key> | "index" y<i> (i = position in `order`) |
+            "shifted" (the symbol of a substance carries the *name* of the next key: names are the caller's business)
+    params: None (default symbols) | {"rot": r, "rev": bool}: an OrderedDict over the expected parameter keys, sorted,
+            rotated by r and possibly reversed, with symbols named q<i>
+    time  : None | name of the caller's time symbol
+    """
+    subst = draw(st.sampled_from(["default", "dict_perm", "dict_perm", "odict", "dict"]))
+    out = {"subst": subst, "order": list(keys), "names": "prefix", "assume": {}, "params": None, "time": None}
+    if subst != "default":
+        if subst == "dict_perm":
+            out["order"] = list(draw(st.permutations(keys)))
+        out["names"] = draw(st.sampled_from(["prefix", "index", "shifted"]))
+        out["assume"] = draw(st.sampled_from(SYMBOL_ASSUMPTIONS))
+    if draw(st.integers(0, 2)) == 2:
+        out["params"] = {"rot": draw(st.integers(0, 5)), "rev": draw(st.booleans())}
+    if draw(st.integers(0, 3)) == 3:
+        out["time"] = draw(st.sampled_from(["tau", "x", "t_"]))
+    return out
 
 
 def _tnum(draw, mode, lo, hi):
